@@ -429,6 +429,10 @@ class Body:
     def term(self, b):
         return self.blocks[b]["term"]
 
+    def inlined_chain(self, bb):
+        """Names of the callees (outermost first) through which block `bb` was spliced into this body by lib.inline."""
+        return tuple(self.blocks[bb].get("inl_chain") or ())
+
     def inlined_from(self, b):
         """Name of the local function block `b` was spliced in from by lib.inline (None for the body's own blocks). Rules that
         scan every reachable body terminator by terminator skip such copies: the original is scanned in its own body."""
